@@ -91,7 +91,7 @@ func (k msgServer) CreatePosition(ctx context.Context, msg *types.MsgCreatePosit
 	// Add an empty position in the pool
 	var position = types.Position{
 		PoolId:    msg.PoolId,
-		Address:   msg.Sender,
+		Address:   sender.String(), // canonical encoding: owner checks compare with AccAddress.String()
 		LowerTick: msg.LowerTick,
 		UpperTick: msg.UpperTick,
 		Liquidity: math.LegacyZeroDec().String(),
@@ -133,7 +133,7 @@ func (k msgServer) CreatePosition(ctx context.Context, msg *types.MsgCreatePosit
 
 	if err := sdk.UnwrapSDKContext(ctx).EventManager().EmitTypedEvent(&types.EventCreatePosition{
 		PositionId: positionId,
-		Address:    msg.Sender,
+		Address:    sender.String(),
 		PoolId:     msg.PoolId,
 		LowerTick:  msg.LowerTick,
 		UpperTick:  msg.UpperTick,
